@@ -230,9 +230,13 @@ def run_immediate(t0, op, later, rep="td"):
         if op[0] == "now":
             s.schedule(action)
         elif op[0] == "rel":
-            s.schedule_relative(timedelta(microseconds=op[1]) if rep == "td" else op[1] / 1e6, action)
+            s.schedule_relative(timedelta(microseconds=op[1]) if rep in ("td", "tz") else op[1] / 1e6, action)
         else:
-            s.schedule_absolute(clock.at(op[1]) if rep == "td" else clock.at(op[1]).timestamp(), action)
+            from datetime import timezone
+            tzs = (timezone(timedelta(hours=-5)), timezone(timedelta(hours=5, minutes=30)))
+            s.schedule_absolute(clock.at(op[1]) if rep == "td" else
+                                clock.at(op[1]).astimezone(tzs[(op[1] // 7) % 2]) if rep == "tz" else
+                                clock.at(op[1]).timestamp(), action)
         log.append(("ret", a, 0))
     except WouldBlockException:
         log.append(("raise", a, 0))
